@@ -69,6 +69,16 @@ def programs(tier, seed):
         {"init": {"repr": "owner", "len": 8}, "threads": [[{"op": "read", "i": 0}, {"op": "drop", "i": 0}], [{"op": "read", "i": 0}, {"op": "drop", "i": 0}]]},
         {"init": {"repr": "prom", "len": 8, "off": 0, "give": False}, "threads": [[{"op": "clone_s"}, {"op": "into_vec", "i": 0}], [{"op": "clone_s"}, {"op": "drop", "i": 0}]]},
     ]
+    # both threads give up (or convert) the last two handles at the same time
+    dd = [{"op": "drop", "i": 0}]
+    for init in ({"repr": "shared", "len": 8, "give": True, "drop_main": True}, {"repr": "prom_arc", "len": 8, "give": True, "drop_main": True},
+                 {"repr": "sharedm", "len": 8, "kinds": ["B", "C"]}, {"repr": "sharedm", "len": 8, "kinds": ["M", "M"]}, {"repr": "sharedm", "len": 8, "kinds": ["M", "B"]},
+                 {"repr": "owner", "len": 8}):
+        canon.append({"init": init, "threads": [dd, dd]})
+        if init["repr"] != "sharedm" or init["kinds"][0] == "B":
+            for conv in ("into_vec", "into_mut", "try_into_mut"):
+                canon.append({"init": init, "threads": [[{"op": conv, "i": 0}], dd]})
+    canon.append({"init": {"repr": "prom", "len": 8, "off": 0, "give": False}, "threads": [[{"op": "clone_s"}, {"op": "drop", "i": 0}], [{"op": "clone_s"}, {"op": "drop", "i": 0}]]})
     rnd.shuffle(three)
     return canon + progs[:n] + three[: (0 if tier == "quick" else 300)]
 
